@@ -3371,6 +3371,8 @@ impl GraphEngine {
     }
 
     fn add_edge_to_list(&self, key: String, edge_id: u64) -> Result<()> {
+        #[cfg(neumann_verif)]
+        tensor_store::verif_hooks::yield_point("graph.adj.pre");
         let mut tensor = self.store.get(&key).unwrap_or_else(|_| TensorData::new());
         #[cfg(neumann_verif)]
         tensor_store::verif_hooks::yield_point("graph.adj.rmw");
@@ -6440,6 +6442,8 @@ impl GraphEngine {
     }
 
     fn remove_edge_from_list(&self, key: &str, edge_id: u64) -> Result<()> {
+        #[cfg(neumann_verif)]
+        tensor_store::verif_hooks::yield_point("graph.adj.pre");
         if let Ok(mut tensor) = self.store.get(key) {
             #[cfg(neumann_verif)]
             tensor_store::verif_hooks::yield_point("graph.adj.rmw");
